@@ -43,6 +43,9 @@ class OsuHold(Hold, OsuNoteMeta):
 
         s_comma = s.split(",")
         s_colon = s_comma[-1].split(":")
+        if len(s_colon) == 1:
+            # Only the end time: an omitted hitSample is 0:0:0:0:
+            s_colon += ["0"] * 4 + [""]
 
         d = dict(
             offset=float(s_comma[2]),
